@@ -37,12 +37,21 @@ CHECKS = {
  "C12": dict(engine="map", ref="5 C12",
    text="TLC explores, for every digest assignment over {0,1}^4 of 3 keys and collision limits 0, 1, 2, 255, all insert/update/remove histories to closure, checking that the element algorithm refuses exactly the inserts the layer-A rule refuses and changes nothing then. Every explored transition is replayed into the real OrderedMap with a table-driven digester and the limit set through the verif hook; dictionary semantics, refusal rule, unchanged-on-refusal and TreeInv (sorted unique digests per level, group sizes, level-1 spill, element limit) are validated after every step; clustered-digest walks over 24 keys add spill/collapse across slab boundaries.",
    note="exhaustive for 3 keys x {0,1}^4 in thorough tier, sampled in quick; limit 255 with 257 keys is not enumerated"),
+ "C13": dict(engine="array+map", ref="5 C13",
+   text="Layer A defines the canonical enumeration order (arrays: index order; maps: ascending digest vector, insertion order among full collisions - MapDict.Canonical). At the end of every TLC-explored history (array: every shape up to 4-6 elements; map: every digest assignment over {0,1}^4 of 3 keys, sampled) and of simulated growth walks (multi-level trees, collision groups across slabs) the harness runs every enumeration flavour (read-only, mutable, iterator objects, keys-only, values-only, loaded-values, Get of every index), all range bounds incl. invalid ones, a mutable iteration that overwrites the current element at a random subset of positions with sizes that move slabs, and after a commit loaded-value iteration in brand-new storages with every subset (<= 5 other slabs) or random subsets of slabs loaded. ArrayTrace / MapTrace require each to equal the model order (IterOK), ranges to be the slice or the right error class, partial loads to be in-order subsequences (PartialOK); reverse-order bulk pops are ordinary history operations checked by layer A.",
+   note="mutation of a nested container during mutable iteration is exercised by the nested engine (n.iter), not here; ReadOnlyIteratorElementMutationError is not a verdict"),
  "C14": dict(engine="storage", ref="5 C14, 3.2",
    text="SlabStorage.tla splits both commits into one action per ledger call, each of which may fail; TLC explores every fault position to closure over a 3-identifier universe and proves CommitFailedLosesNothing / CommitOK (ledger = view at commit start) / ViewStable. Every explored history with a failing call is replayed with the same fault placement into the real PersistentSlabStorage and the recorded per-call trace is validated by TLC (commit events strict). Random histories with faults and retries on a larger universe are validated the same way.",
    note="LedgerSim failing calls have no effect; slab payloads are opaque versions; bounded: 3-4 identifiers, 2-3 versions, 1 fault per model history (up to 3 in random drivers); container-level fault histories are covered by the persist engine"),
  "C15": dict(engine="storage", ref="5 C15, 3.2",
    text="SlabStorage.tla is the write-back overlay (deltas / cache / ledger) with one action per exported method; TLC computes the closure and checks ReadYourWrites, CacheCoherent, CommitOK, DropReverts, ViewStable. Every transition of the state graph is replayed into the real storage (spec -> impl) and every recorded event, with the full observed deltas/cache/ledger state, must be explained by the specification's action (impl -> spec, all events strict).",
    note="bounded: closure over 3 identifiers (4 in thorough, sampled edges) x 2 versions x 1 fault; random driver 6-8 identifiers x 3 versions; slab payloads are opaque versions carried by real array slabs"),
+ "C17": dict(engine="array+map", ref="5 C17",
+   text="ArrayTree.tla transcribes NewArrayFromBatchData (TBatch). At the end of every TLC-explored history - including an append-only configuration that enumerates EVERY element-size stream up to 6-7 elements over sizes on the inline / half-slab edges, and growth-only map streams with values on the element-limit edge - and of simulated growth walks, the harness bulk-builds a new container from the source's iterator (maps: with the source's seed) and copies it with CopyNonRefSimple. ArrayTrace / MapTrace require equal content and order, a structure valid by TreeInv, a different identity, the same seed, CanCopyNonRefSimple true exactly for single-slab containers of plain values (and then success, else refusal), and, after mutating and disposing of the result, an unaffected source and no leaked slab (SourceUnaffected). BytesTrace covers byte slice <-> byte array for every length around the fast-path boundary x five size estimates x two element widths.",
+   note="'valid exactly as if built by individual operations' is taken as: satisfies the same validity predicate (TreeInv), not: has the same shape; inlined sources of copies are exercised only through the nested engine"),
+ "C18": dict(engine="array+map", ref="5 C18",
+   text="Rejected requests are actions of layer A with UNCHANGED state. Every TLC-explored array history (all shapes up to 4-6 elements) contains out-of-range Get/Set/Insert/Remove at count, count+1 and beyond 2^32 with values of every size (incl. over-limit values that would allocate a slab), every map history lookups / removals of absent keys and inserts refused by the collision limit (limits 0, 1, 255); the trace specifications require the exact error class AND category and that the projected slabs (hash with raw digests), the identifiers in storage, the write-set size and the ledger call counter equal those before the request (NoTraceOfRejected). Multi-run: the history with and without its rejected requests commits byte-identical registers. ExtErrTrace: failures injected into the ledger read, the key comparator and the hash-input provider at every call made during Get / Has / Remove / iteration start must surface as external errors.",
+   note="undefined identifiers for Store/Remove are covered by the storage engine (C15); invalid ranges by the C13 probes"),
  "C20": dict(engine="health", ref="5 C20, 3.8",
    text="HealthOps.tla defines the healthy predicate over slab reference graphs (every reference resolves, single referrer, same owner, everything reachable from a root, expected root count) and the all-child-references query. Health.tla enumerates EVERY healthy labelled forest over 4 (quick) / 5 (thorough) slabs with two owner patterns and every single corruption of the four kinds (deletion as pending delete, committed delete or missing register), and TLC proves the sanity lemmas (each generated forest healthy, each corrupted graph unhealthy). Every case is built in a real storage, fully loaded, and CheckStorageHealth / GetAllChildReferences must return the Healthy verdict, the true roots and exactly the resolvable / broken references (HealthTrace.tla). The same corruptions are applied to the committed storages of TLC-simulated nested-container walks.",
    note="GetAllChildReferences is not called on slabs from which a reference cycle is reachable (it does not terminate there; cycles only arise from the 'second reference from a descendant' corruption); foreign-owner corruption only in the enumerated cases; found and fixed one genuine defect (known_findings.json)"),
